@@ -42,6 +42,19 @@ def rtxt(r, lo=1, hi=20):
     return "".join(r.choice(alpha) for _ in range(r.randint(lo, hi)))
 
 
+def rbody(r):
+    """free-text node content as a peer may send it: bytes, not necessarily valid UTF-8 (a text cut at a byte limit in
+    the middle of a multi-byte character, a latin-1 body, arbitrary bytes)"""
+    x = r.random()
+    if x < .55:
+        return rtxt(r).encode()
+    if x < .7:
+        return rtxt(r).encode("utf-8")[:-1] + b"\xf0\x9f\x98"           # emoji cut after 3 of 4 bytes
+    if x < .85:
+        return (rtxt(r, 1, 8) + "\xe9t\xe9 \xfc").encode("latin-1", "replace")
+    return bytes(r.randrange(256) for _ in range(r.randint(1, 12)))
+
+
 def ropt(r, v, p=.5):
     return v if r.random() < p else None
 
@@ -435,7 +448,7 @@ def _g(r):
 @kind("recv.notification.status", "recv", up="StatusNotificationProtocolEntity",
       answers=[ans_notification_ack], c07="notification")
 def _g(r):
-    return notif(r, "status", [N("set", {}, None, rtxt(r).encode())])
+    return notif(r, "status", [N("set", {}, None, rbody(r))])
 
 
 for _c, _cls in [("add", "AddContactNotificationProtocolEntity"), ("remove", "RemoveContactNotificationProtocolEntity"),
@@ -487,7 +500,7 @@ def _g(r):
 
 @kind("recv.notification.subject", "recv", up=None, answers=[ans_notification_ack], c07="notification")
 def _g(r):
-    return notif(r, "subject", [N("body", {}, None, rtxt(r).encode())], group=True)
+    return notif(r, "subject", [N("body", {}, None, rbody(r))], group=True)
 
 
 @kind("recv.notification.encrypt.count", "recv", up=None, answers=[ans_notification_ack], c07="notification",
